@@ -13,10 +13,13 @@ var zzvPool = []string{"a", "b", "c"}
 // Hash values of the pool names (the HAMT hash function is replaced by this table, natively too).
 // table 0: no shared prefix. table 1: a/c share the first 8 bits, b shares the first 5 bits with them.
 // table 2: a/c share the first 16 bits (a chain of single-child shards at small widths), b as in table 1.
+// table 3: a/b share the first 8 bits (a chain at width 8, one sub-shard at 16..256) and part at a high slot of the
+// sub-shard (0xE0), c sits alone in a root slot between them (0x20): the sibling of the sub-shard is a root value.
 var zzvTables = [][][]byte{
 	{{0x00, 0, 0, 0, 0, 0, 0, 1}, {0x20, 0, 0, 0, 0, 0, 0, 2}, {0x40, 0, 0, 0, 0, 0, 0, 3}},
 	{{0x00, 0, 0, 0, 0, 0, 0, 1}, {0x04, 0, 0, 0, 0, 0, 0, 2}, {0x00, 0x80, 0, 0, 0, 0, 0, 3}},
 	{{0x00, 0, 0, 0, 0, 0, 0, 1}, {0x04, 0, 0, 0, 0, 0, 0, 2}, {0x00, 0x00, 0x80, 0, 0, 0, 0, 3}},
+	{{0x00, 0, 0, 0, 0, 0, 0, 1}, {0x00, 0xE0, 0, 0, 0, 0, 0, 2}, {0x20, 0, 0, 0, 0, 0, 0, 3}},
 }
 
 var zzvWidths = []int{8, 256, 1024, 16, 64}
@@ -122,5 +125,132 @@ func HarnessC15ShardOps() {
 	froot, err := fresh.Node()
 	verifrt.Assert("C15.shard-fresh-node-ok", err == nil)
 	verifrt.Assert("C15.shard-root-equals-fresh-build", root.Cid().Equals(froot.Cid()))
+	verifrt.Reach("end")
+}
+
+// zzvInitialSets: entry subsets of the three-name pool (bit i = pool name i) in the order the tiers take them: the
+// sets with two or three entries first (they have sub-shards under the collision tables), then the rest.
+var zzvInitialSets = []int{7, 5, 3, 6, 1, 4, 2, 0}
+
+// zzvListingOnly compares one enumeration API that does not load children (EnumLinks: the asynchronous walk reads
+// unloaded value links in place and fetches sub-shards without caching them) with the model.
+func zzvListingOnly(ctx context.Context, where string, s *Shard, model map[string]int, nodes []*zzvChild) {
+	links, err := s.EnumLinks(ctx)
+	verifrt.Assert("C15.shard-enumlinks-ok-"+where, err == nil)
+	zzvSameListing("C15.shard-enumlinks-"+where, links, model, nodes)
+}
+
+// HarnessC15ShardReload: histories that cross a serialize/reload boundary. A subset of the pool (chosen by the engine
+// among the first INITIALS of zzvInitialSets; b is stored with the 135-byte target) is stored, the root is serialized (Node) and loaded again (NewHamtFromDag), so every child is an
+// unloaded link. Optionally every child is loaded first (TOUCH). Then K2 operations (Set of a new name, Set that
+// replaces a stored name with the other target, Take of a stored or a missing name; names hit top-level values,
+// values inside sub-shards and chains of single-child shards depending on the collision table) run on the lazily
+// loaded shard. After every operation the live shard is listed without loading anything (EnumLinks) and its
+// serialization is loaded into a separate instance on which Find of every pool name, EnumLinks and ForEachLink must
+// agree with the map model (so the next operation still sees unloaded siblings). At the end: Find/ForEachLink on the
+// live shard, listing must not change the root, the root must equal the root of a shard built freshly from the final
+// entries (canonical form: same links, same link names, same bitfield), and a third generation loaded from that root is
+// emptied name by name down to the root of an empty shard.
+func HarnessC15ShardReload() {
+	ctx := context.Background()
+	ds := &zzvDag{}
+	tbl := zzvTables[verifrt.NondetRange("table", 0, verifrt.Param("TABLES", 4)-1)]
+	zzvHashTable = map[string][]byte{}
+	for i, n := range zzvPool {
+		zzvHashTable[n] = tbl[i]
+	}
+	defer hamtHashHook()()
+	width := zzvWidths[verifrt.NondetRange("width", 0, verifrt.Param("WIDTHS", 2)-1)]
+	nodes := []*zzvChild{{c: zzvCid(0, 0xA1), size: 5}, {c: zzvCid(6, 0xA2), size: 300}}
+
+	// generation 0: any entry set, serialized
+	s0, err := NewShard(ds, width)
+	verifrt.Assert("C15.shard-new-ok", err == nil)
+	model := map[string]int{}
+	initial := zzvInitialSets[verifrt.NondetRange("initial", 0, verifrt.Param("INITIALS", 4)-1)]
+	for i, name := range zzvPool {
+		if initial>>i&1 == 1 {
+			verifrt.Assert("C15.reload-initial-set-ok", s0.Set(ctx, name, nodes[i&1]) == nil)
+			model[name] = i & 1
+		}
+	}
+	root0, err := s0.Node()
+	verifrt.Assert("C15.shard-node-ok", err == nil)
+
+	// generation 1: lazily loaded, edited
+	s, err := NewHamtFromDag(ds, root0)
+	verifrt.Assert("C15.shard-reload-ok", err == nil)
+	if verifrt.NondetRange("touch", 0, verifrt.Param("TOUCH", 0)) == 1 {
+		err := s.ForEachLink(ctx, func(*ipld.Link) error { return nil }) // loads and caches every child
+		verifrt.Assert("C15.shard-foreach-ok-touch", err == nil)
+	}
+	k := verifrt.Param("K2", 1)
+	for i := 0; i < k; i++ {
+		name := zzvPool[verifrt.NondetRange("name", 0, len(zzvPool)-1)]
+		op := verifrt.NondetRange("op", 0, 2)
+		if op < 2 {
+			err := s.Set(ctx, name, nodes[op])
+			verifrt.Assert("C15.reload-set-ok", err == nil)
+			model[name] = op
+		} else {
+			old, err := s.Take(ctx, name)
+			if idx, ok := model[name]; ok {
+				verifrt.Assert("C15.reload-take-returns-old", err == nil && old != nil && old.Cid.Equals(nodes[idx].c) && old.Size == nodes[idx].size)
+			} else {
+				verifrt.Assert("C15.reload-remove-missing-not-exist", err != nil && os.IsNotExist(err))
+			}
+			delete(model, name)
+		}
+		zzvListingOnly(ctx, "edited-live", s, model, nodes)
+		nd, err := s.Node()
+		verifrt.Assert("C15.shard-node-ok", err == nil)
+		snap, err := NewHamtFromDag(ds, nd)
+		verifrt.Assert("C15.shard-reload-ok", err == nil)
+		zzvCheckShard(ctx, "edited-serialized", snap, model, nodes)
+	}
+	root, err := s.Node()
+	verifrt.Assert("C15.shard-node-ok", err == nil)
+	zzvCheckShard(ctx, "edited-live", s, model, nodes)
+	root1, err := s.Node()
+	verifrt.Assert("C15.shard-node-ok", err == nil)
+	verifrt.Assert("C15.reload-listing-does-not-change-root", root1.Cid().Equals(root.Cid()))
+
+	// canonical form
+	fresh, err := NewShard(ds, width)
+	verifrt.Assert("C15.shard-new-ok", err == nil)
+	for _, name := range zzvPool {
+		if idx, ok := model[name]; ok {
+			verifrt.Assert("C15.shard-fresh-set-ok", fresh.Set(ctx, name, nodes[idx]) == nil)
+		}
+	}
+	froot, err := fresh.Node()
+	verifrt.Assert("C15.shard-fresh-node-ok", err == nil)
+	verifrt.Assert("C15.reload-root-equals-fresh-build", root.Cid().Equals(froot.Cid()))
+
+	// generation 2: loaded from the edited root, emptied one name at a time, serialized after every removal
+	s2, err := NewHamtFromDag(ds, root)
+	verifrt.Assert("C15.shard-reload-ok", err == nil)
+	for _, name := range zzvPool {
+		err := s2.Remove(ctx, name)
+		if _, ok := model[name]; ok {
+			verifrt.Assert("C15.shard-reloaded-remove-ok", err == nil)
+		} else {
+			verifrt.Assert("C15.shard-reloaded-remove-missing-not-exist", err != nil && os.IsNotExist(err))
+		}
+		delete(model, name)
+		nd, err := s2.Node()
+		verifrt.Assert("C15.shard-node-ok", err == nil)
+		snap, err := NewHamtFromDag(ds, nd)
+		verifrt.Assert("C15.shard-reload-ok", err == nil)
+		zzvCheckShard(ctx, "emptying-serialized", snap, model, nodes)
+	}
+	zzvCheckShard(ctx, "emptied", s2, model, nodes)
+	eroot, err := s2.Node()
+	verifrt.Assert("C15.shard-node-ok", err == nil)
+	empty, err := NewShard(ds, width)
+	verifrt.Assert("C15.shard-new-ok", err == nil)
+	enode, err := empty.Node()
+	verifrt.Assert("C15.shard-fresh-node-ok", err == nil)
+	verifrt.Assert("C15.reload-emptied-root-equals-empty-shard", eroot.Cid().Equals(enode.Cid()))
 	verifrt.Reach("end")
 }
